@@ -106,6 +106,30 @@ def build(case: dict, n: int) -> dict | None:
                      WRITE(INDEX(V("c"), I(-1))), WRITE(CALL("len", V("a"))),
                      REMOVE("c", I(9)), REMOVE("c", I(10)), REMOVE("a", INDEX(V("a"), I(-1))), REMOVE("c", INDEX(V("c"), I(-1)))]
             ain.append(4)
+        elif op == "helper-assigns-global-list":
+            # a helper declares the list `global` and assigns it afresh on every call
+            if "w" in have:
+                return None
+            have.add("w")
+            defs["refresh"] = DEF(["n"], [ASSIGN("w", LIST(V("n"), BIN("+", V("n"), I(1)), BIN("+", V("n"), I(2)))), RETURN(INDEX(V("w"), I(-1)))], ["w"])
+            body += [WRITE(CALL("refresh", AREAD())), WRITE(CALL("refresh", I(7)))]
+            ain.append(4)
+        elif op == "cond-remove-then-negative-index":
+            # the list shrinks at run time fewer times than the statement is executed; then a negative literal index
+            if "m" in have:
+                return None
+            have.add("m")
+            pre.append(ASSIGN("m", LIST(I(5), I(6), I(7), I(8))))
+            pre.append(ASSIGN("cq", I(0)))
+            body += [AUG("cq", "+", I(1)), IF([(CMP(V("cq"), ("<=", I(2))), [REMOVE("m", INDEX(V("m"), I(0)))])]),
+                     WRITE(INDEX(V("m"), I(-1))), WRITE(INDEX(V("m"), I(-2)))]
+        elif op == "cond-append-then-negative-index":
+            if "g" in have:
+                return None
+            have.add("g")
+            pre.append(ASSIGN("g", LIST(I(1), I(2))))
+            pre.append(ASSIGN("cg", I(0)))
+            body += [AUG("cg", "+", I(1)), IF([(CMP(V("cg"), ("<=", I(2))), [APPEND("g", V("cg"))])]), WRITE(INDEX(V("g"), I(-1))), WRITE(INDEX(V("g"), I(0)))]
         elif op == "string-concat":
             need("s"); body.append(ASSIGN("s", BIN("+", V("s"), S("x"))))
         elif op == "string-len":
